@@ -82,6 +82,12 @@ def _all():
                  ([{"o": 1, "i": 0.0005}, 2], [{"o": -1, "i": -0.000502}, 2]), ([{"o": 1}, 0.00012], [{"o": -1}, 0.000121])):
         for g in ([t, u], [u, t], [t, [{"j": 1}, 5], u]):
             yield {"fam": "pair", "a": [], "g": g}
+    if DEEP[0]:
+        big = ladder(True)
+        for c1, c2 in itertools.product(big[::2], big[1::3]):
+            for k in (0, 1.234, -1000, 123400 * (1 + 3e-5), 0.0001):
+                yield {"fam": "single", "a": [], "g": [[{"i": c1, "o": -c2}, k]]}
+                yield {"fam": "pair", "a": [], "g": [[{"i": c1, "o": -c2}, k], [{"i": -c1, "o": c2}, k]]}
     # mixed
     gs = [[{"o": 1}, 1000000], [{"o": -1, "i": 0.5}, 0], [{"o": 1.234, "j": -12.34}, 1234], [{"i": 1, "o": 1}, 0.001234], [{"o": -999.9}, 5.678 * (1 + 2e-6)]]
     as_ = [[{"i": 1}, 1000], [{"i": -1}, 0], [{"j": 0.25, "i": 1}, 7], [{"j": -1}, 0.0001]]
@@ -91,10 +97,15 @@ def _all():
                 yield {"fam": "mixed", "a": list(a), "g": list(g)}
 
 
+DEEP = [False]
+
+
 def cases(tier, seed):
     sl = seed % NSLICES
     k = 0
     from .. import grids
+
+    DEEP[0] = tier == "thorough"
 
     for c in grids.dedupe(_all()):
         if tier == "thorough" or c["fam"] != "mixed":
